@@ -71,7 +71,9 @@ impl<'a> Speller<'a> {
                     Some(e) if !self.alt() => o.push_str(e),
                     _ => o.push_str(&self.hex4(u)),
                 }
-            } else if bmp && self.alt() && self.rng.chance(1, 3) {
+            } else if bmp && ((u >= 0xD000 && self.rng.chance(1, 2)) || (self.alt() && self.rng.chance(1, 3))) {
+                // the top of the BMP (next to the surrogate block) is written as an escape every second time: two such
+                // escapes in a row are two characters, not a surrogate pair
                 o.push_str(&self.hex4(u));
             } else {
                 o.push(c);
@@ -91,7 +93,7 @@ impl<'a> Speller<'a> {
                 o.push_str("\\`");
             } else if c == '\\' {
                 o.push_str("\\\\");
-            } else if u < 0x20 || (bmp && self.alt() && self.rng.chance(1, 3) && !":/?#[]@&=;".contains(c)) {
+            } else if u < 0x20 || (bmp && ((u >= 0xD000 && self.rng.chance(1, 2)) || (self.alt() && self.rng.chance(1, 3))) && !":/?#[]@&=;".contains(c)) {
                 o.push_str(&self.hex4(u));
             } else {
                 o.push(c);
